@@ -242,6 +242,11 @@ def make_cases(ctx):
     tiny = rng.sample(TINY_AREA, 2) if ctx.quick else TINY_AREA * 3
     cases += [gen_real(rng, iso, greenhouse=True) for iso in tiny]
     cases += [gen_real(rng, iso, overrides=True) for iso in (["ARG"] if ctx.quick else rng.sample(isos, 40))]
+    # greenhouses WITHOUT relocation (scenario 'greenhouse'), crops alive
+    for iso in (["ARG"] if ctx.quick else ["ARG", "USA"] + rng.sample(isos, 20)):
+        c = gen_real(rng, iso, greenhouse=True)
+        c["options"]["scenario"] = "greenhouse"
+        cases.append(c)
     return cases
 
 
@@ -321,6 +326,19 @@ def audit(ctx):
     over = ["ARG", rng.choice(isos)] if ctx.quick else ["ARG", "USA", "IND"] + rng.sample(isos, 60)
     cases += [gen_real(rng, iso, overrides=True) for iso in over]
     cases += [gen_real(rng, iso, greenhouse=True) for iso in (rng.sample(TINY_AREA, 2) if ctx.quick else TINY_AREA * 2)]
+    g = gen_real(rng, rng.choice(["ARG", "USA", "IND"]), greenhouse=True)
+    g["options"]["scenario"] = "greenhouse"
+    cases.append(g)
+    # one run_model_no_trade-style sequence sharing one option dict (ALB / SLV are rewritten by alter_scenario_if_known_to_fail)
+    cases.append({"kind": "sequence", "isos": ["ALB", "ARG"], "preset": "argentina_net_nuclear_resilient"})
+    if not ctx.quick:
+        cases.append({"kind": "sequence", "isos": ["SLV", "USA", "ECU", "IND"], "preset": "argentina_net_nuclear_resilient"})
+    # what each round's optimiser receives (three-round runs)
+    cases.append({"kind": "handoff", "iso3": "ARG", "preset": "argentina_net_nuclear_resilient"})
+    for _ in range(1 if ctx.quick else 20):
+        cases.append({"kind": "handoff", "iso3": rng.choice(isos),
+                      "options": dict(c09.REAL_BASE, title="verif", scenario=rng.choice(["all_resilient_foods", "seaweed", "industrial_foods"]),
+                                      shutoff=rng.choice(["long_delayed_shutoff", "continued", "short_delayed_shutoff"]))})
     res = ctx.run_impl("c08_audit", {"cases": cases})
     ctx.notes["audit"] = {k: v for k, v in res.items() if k != "failures"}
     ctx.count(n=res["checks"])
